@@ -69,4 +69,34 @@ HARNESSES = [
          cases=[dict(id="n%d" % n, defines={"N": n}, tier="quick",
                      unwindset=["str_table_copy.0:%d" % (n + 2), "str_table_cleanup.0:%d" % (n + 2)])
                 for n in (1, 2)]),
+    dict(name="comp_xz", file="comp_flat.c", label="proved", defines={"COMP": 1},
+         fp={"destroy": "xz_destroy", "copy": "xz_create_copy", "*": "c19_unreachable_read_at"},
+         flags=LEAK, timeout=200, unwind=2),
+    dict(name="comp_lz4", file="comp_flat.c", label="proved", defines={"COMP": 2},
+         fp={"destroy": "lz4_destroy", "copy": "lz4_create_copy", "*": "c19_unreachable_read_at"},
+         flags=LEAK, timeout=200, unwind=2),
+    dict(name="comp_lzma", file="comp_flat.c", label="proved", defines={"COMP": 3},
+         fp={"destroy": "lzma_destroy", "copy": "lzma_create_copy", "*": "c19_unreachable_read_at"},
+         flags=LEAK, timeout=200, unwind=2),
+    dict(name="comp_gzip", file="comp_gzip.c", label="proved",
+         fp={"destroy": "gzip_destroy", "copy": "gzip_create_copy", "*": "c19_unreachable_read_at"},
+         flags=LEAK, timeout=200, unwind=2,
+         cases=[dict(id="compress", defines={"COMPRESS": 1}, tier="quick"),
+                dict(id="uncompress", defines={"COMPRESS": 0}, tier="quick")]),
+    dict(name="comp_zstd", file="comp_zstd.c", label="proved",
+         fp={"destroy": "zstd_destroy", "copy": "zstd_create_copy", "*": "c19_unreachable_read_at"},
+         flags=LEAK, timeout=200, unwind=2),
+    dict(name="stdio_file", file="stdio_file.c", label="bounded(name_len<=12)",
+         fp={"destroy": "stdio_destroy", "copy": "stdio_copy", "*": "c19_unreachable_read_at"},
+         flags=LEAK, timeout=200, unwind=9,
+         cases=[dict(id="nl%d" % n, defines={"NL": n}, tier=t)
+                for n, t in ((1, "quick"), (5, "quick"), (12, "thorough"))]),
+    dict(name="dir_reader", file="dir_reader.c", label="bounded(dcache_nodes<=2)",
+         fp={"destroy": ["dir_reader_destroy", "c19_obj_destroy"],
+             "copy": ["dir_reader_copy", "c19_obj_copy"],
+             "key_compare": "dcache_key_compare", "*": "c19_unreachable_read_at"},
+         flags=LEAK, timeout=300, unwind=2,
+         unwindset=["copy_node:4", "destroy_nodes_dfs:4"] + ["harness.%d:4" % i for i in range(5)],
+         cases=[dict(id="dot%d_nn%d" % (d, n), defines={"DOT": d, "NN": n}, tier=t)
+                for d, n, t in ((0, 0, "quick"), (1, 0, "quick"), (1, 1, "quick"), (1, 2, "quick"))]),
 ]
